@@ -194,6 +194,10 @@ pub fn apply_ops(ops: &[Op], res_prefix: &str) -> (FnGraphBuilder<TestFn>, Vec<S
     let mut out = vec![];
     let mut n = 0usize;
     let mut skip = 0usize;
+    // edges are declared with the ids the builder RETURNED for the functions (as a caller would)
+    let mut ids: Vec<FnId> = vec![];
+    let mut pairs_mapped: Vec<(usize, usize)>;
+    let idof = |ids: &Vec<FnId>, i: usize| ids.get(i).copied().unwrap_or_else(|| FnId::new(i));
     for (oi, op) in ops.iter().enumerate() {
         if skip > 0 {
             skip -= 1;
@@ -204,24 +208,28 @@ pub fn apply_ops(ops: &[Op], res_prefix: &str) -> (FnGraphBuilder<TestFn>, Vec<S
                 // every third function that is directly followed by another one goes through the
                 // batch form `add_fns` together with its successor (same result lines)
                 if let (true, Some(Op::Fn { tag: t2, r: r2, w: w2 })) = (n % 3 == 1, ops.get(oi + 1)) {
-                    let ids = b.add_fns([
+                    let ids2 = b.add_fns([
                         TestFn { idx: n, tag: *tag, r: r.clone(), w: w.clone() },
                         TestFn { idx: n + 1, tag: *t2, r: r2.clone(), w: w2.clone() },
                     ]);
                     n += 2;
                     skip = 1;
-                    out.push(format!("{}res ok {}", res_prefix, ids[0].index()));
-                    format!("res ok {}", ids[1].index())
+                    out.push(format!("{}res ok {}", res_prefix, ids2[0].index()));
+                    ids.push(ids2[0]);
+                    ids.push(ids2[1]);
+                    format!("res ok {}", ids2[1].index())
                 } else {
                     let id = b.add_fn(TestFn { idx: n, tag: *tag, r: r.clone(), w: w.clone() });
                     n += 1;
+                    ids.push(id);
                     format!("res ok {}", id.index())
                 }
             }
             Op::Edge { k, a, b: c } => {
+                let (ia, ic) = (idof(&ids, *a), idof(&ids, *c));
                 let r = catch_unwind(AssertUnwindSafe(|| match k {
-                    K::Logic => b.add_logic_edge(FnId::new(*a), FnId::new(*c)),
-                    K::Contains => b.add_contains_edge(FnId::new(*a), FnId::new(*c)),
+                    K::Logic => b.add_logic_edge(ia, ic),
+                    K::Contains => b.add_contains_edge(ia, ic),
                 }));
                 match r {
                     Ok(Ok(e)) => format!("res ok {}", e.index()),
@@ -229,13 +237,16 @@ pub fn apply_ops(ops: &[Op], res_prefix: &str) -> (FnGraphBuilder<TestFn>, Vec<S
                     Err(_) => "res oob".to_string(),
                 }
             }
-            Op::Edges { k, pairs } => match pairs.len() {
-                0 => batch::<0>(&mut b, *k, pairs),
-                1 => batch::<1>(&mut b, *k, pairs),
-                2 => batch::<2>(&mut b, *k, pairs),
-                3 => batch::<3>(&mut b, *k, pairs),
-                4 => batch::<4>(&mut b, *k, pairs),
-                _ => batch::<5>(&mut b, *k, &pairs[..5]),
+            Op::Edges { k, pairs } => match {
+                pairs_mapped = pairs.iter().map(|(x, y)| (idof(&ids, *x).index(), idof(&ids, *y).index())).collect::<Vec<_>>();
+                pairs.len()
+            } {
+                0 => batch::<0>(&mut b, *k, &pairs_mapped),
+                1 => batch::<1>(&mut b, *k, &pairs_mapped),
+                2 => batch::<2>(&mut b, *k, &pairs_mapped),
+                3 => batch::<3>(&mut b, *k, &pairs_mapped),
+                4 => batch::<4>(&mut b, *k, &pairs_mapped),
+                _ => batch::<5>(&mut b, *k, &pairs_mapped[..5]),
             },
         };
         out.push(format!("{}{}", res_prefix, line));
@@ -438,7 +449,23 @@ pub fn ginfo_line(g: &FnGraph<TestFn>) -> String {
         let iter_rev: Vec<usize> = gi.iter_rev().copied().collect();
         let yaml = serde_yaml_ng::to_string(&gi).unwrap();
         let back: GraphInfo<usize> = serde_yaml_ng::from_str(&yaml).unwrap();
-        let roundtrip = back == gi;
+        // the same with a node type that is an enum with data-carrying, struct-like and unit variants
+        #[derive(Clone, Debug, PartialEq, serde::Serialize, serde::Deserialize)]
+        enum Info {
+            Plain(usize),
+            Named { idx: usize, name: String },
+            Unit,
+        }
+        let gi2: GraphInfo<Info> = GraphInfo::from_graph(g, |f| match f.idx % 3 {
+            0 => Info::Plain(f.idx),
+            1 => Info::Named { idx: f.idx, name: format!("fn {}", f.idx) },
+            _ => Info::Unit,
+        });
+        let rt2 = match serde_yaml_ng::to_string(&gi2).ok().map(|y| serde_yaml_ng::from_str::<GraphInfo<Info>>(&y)) {
+            Some(Ok(b2)) => b2 == gi2,
+            _ => false,
+        };
+        let roundtrip = back == gi && rt2;
         let back_iter: Vec<usize> = back.iter().copied().collect();
         let back_iter_rev: Vec<usize> = back.iter_rev().copied().collect();
         let back_nodes: Vec<usize> = back.graph.raw_nodes().iter().map(|n| n.weight).collect();
